@@ -108,6 +108,7 @@ def _elem_op(f, a, b):
 class _Generic:
     __generic__ = True
     __array_priority__ = 2000
+    __array_ufunc__ = None  # numpy defers binary operators to the reflected method of the model object
     __hash__ = None
 
 
@@ -242,6 +243,15 @@ class GVec(_Generic):
         if isinstance(k, int) or isinstance(k, SV):
             return PosElem(self, k)
         raise Unsupported(f"GVec[{type(k).__name__}]")
+    def __setitem__(self, k, v):
+        if isinstance(k, (SV, int)):
+            pv = RowPos(self.space).val.t
+            kt = to_z3(k)
+            ctx().oblige("safe.index-in-range", z3.And(kt >= 0, kt < to_z3(self.space.n)), kind="safe", detail="element store into a per-row vector")
+            self.val = _ite_any(pv == kt, v, self.val)
+            return
+        raise Unsupported("per-row vector store form")
+
     def __generic_iter__(self):
         raise Unsupported("iteration over a per-row vector (data-dependent loop)")
     def sum(self, *a, **k): raise Unsupported("reduction over rows (sum)")
@@ -552,6 +562,8 @@ class RowArr(_Generic):
             if isinstance(r, GVec) and isinstance(r.val, SV) and r.val.isint:
                 t = _take_rows(self, r)
                 return t[(slice(None), c)]
+            if (isinstance(r, SV) or isinstance(r, int)) and isinstance(c, slice) and c == slice(None):
+                return self.row_at(r)
             if isinstance(r, SV) or isinstance(r, int):
                 raise Unsupported("row access by position in a per-row array")
         if isinstance(key, GVec) and isinstance(key.val, SV) and key.val.isint:
@@ -571,6 +583,22 @@ class RowArr(_Generic):
             self.vals[key[1]] = v
             return
         raise Unsupported(f"RowArr[{key!r}] = ...")
+    def row_at(self, r):
+        """row at (symbolic) position r as a concrete-shape vector: requires values expressed as functions of the row position"""
+        from .npm import obj
+        pv = RowPos(self.space).val.t
+        rt = to_z3(r)
+        ctx().oblige("safe.index-in-range", z3.And(rt >= 0, rt < to_z3(self.space.n)), kind="safe", detail="row position into a per-row array")
+        out = []
+        for v in self.vals:
+            if isinstance(v, SV):
+                if not _mentions(v.t, pv):
+                    raise Unsupported("row access by position: values are not functions of the row position")
+                out.append(SV(z3.substitute(v.t, (pv, rt))))
+            else:
+                out.append(v)
+        return obj(out)
+
     def __generic_iter__(self):
         raise Unsupported("iteration over rows of an array")
     def tolist(self): raise Unsupported("tolist of per-row array")
@@ -648,6 +676,10 @@ class _ILoc:
         f = self.f
         if isinstance(r, SiteList):
             f = r.select(f)
+        elif type(r).__name__ == "FnArr":
+            pv = RowPos(f.space).val.t
+            sp = _filter_space(f.space)
+            f = GFrame(f.cols, f.row, sp, z3.And(f.present, r.f(pv)), perm=f.perm)
         elif isinstance(r, GVec):
             f = f.select_rows(r)
         elif isinstance(r, slice) and r == slice(None):
@@ -960,7 +992,26 @@ class GFrame(_Generic):
             return GFrame(cs, {c: self.row[c] for c in cs}, self.space, self.present)
         raise Unsupported("DataFrame.drop(index=...)")
 
-    def sort_values(self, *a, **k): raise Unsupported("sort_values on a generic table")
+    def sort_values(self, by=None, **k):
+        """only for n stacked copies of a table (RepList.concat): sorting by a column whose values are distinct in the table groups
+        the n copies of each row together (assumed pandas contract): position = rank_of_parent * n + j with j in [0,n) the place of the
+        copy within its block; the copies are identical rows, so which copy stands where is unobservable"""
+        rep = getattr(self.space, "rep", None)
+        if rep is None or k.get("ascending", True) is not True or k.get("inplace") or not isinstance(by, str) or by not in self.row:
+            raise Unsupported("sort_values on a generic table")
+        cx = ctx()
+        ctx().oblige(f"requires.sort_key_{by}_distinct_per_parent", z3.BoolVal(by in getattr(rep["src"], "unique_cols", ())), kind="requires",
+                     detail="sort_values groups the copies of one parent only if the key identifies the parent")
+        sp = Space(n=self.space.n, tag="srt")
+        sp.label_id = self.space.label_id
+        u = next(cx.counter)
+        j, pr = z3.Int(f"block_place!{u}"), z3.Int(f"parent_rank!{u}")
+        nn = to_z3(rep["n"])
+        cx.assume(z3.And(j >= 0, j < nn, pr >= 0, pr < to_z3(rep["src_space"].n)))
+        sp.rep = dict(rep, sorted_by=by, block_index=j, parent_rank=pr)
+        r = GFrame(list(self.cols), dict(self.row), sp, self.present, perm=self.perm)
+        r.mult = self.mult
+        return r
     mult = None  # multiplicity of the generic row in the table (z3 Int) when it can differ from 1
     def merge(self, right, how="inner", on=None, **k):
         if how != "inner" or not isinstance(right, GVec) or right.name is None or right.name not in self.row:
